@@ -8,10 +8,11 @@ SIGMA_Q = ['a', '1', '"s"', '==', '<', 'in', 'not', '+', '-', '*', '**', '/', 'a
 # every token type and every spelling
 SIGMA_FULL = SIGMA_Q + ['!=', '>', '>=', '<=', '-=', '*=', '/=', 'False', 'None',
                         'while', 'break', 'continue', 'def', 'raise', 'elif',
-                        'b', '%n m%', '2.5', "'s'", 'r"s"', '\r\n', '"u\\nv"', 'index', 'notx', 'orb', '0', 'Truex', 'r', '"p\u2028q"', '"\x85\x0b\x0c\x1c\r"']
+                        'b', '%n m%', '2.5', "'s'", 'r"s"', '\r\n', '"u\\nv"', 'index', 'notx', 'orb', '0', 'Truex', 'r', '"p\u2028q"', '"\x85\x0b\x0c\x1c\r"',
+                        'null', 'true', 'none', 'nil', 'lambda', 'is', 'return']
 
 SIGMA_CHAR = ['a', '1', '.', '"', "'", '\\', '%', '#', ' ', '\n', 'r', '=', '>', '-', '(', ']',
-              'é', '\x00', '\ud800', '$', '\f', '\r', ';', '\U0001F600', '²', '１', '\u2028', '\x85', '\x1c', 'µ', 'ﬁ', '\ufeff', '\xa0']
+              'é', '\x00', '\ud800', '$', '\f', '\r', ';', '\U0001F600', '²', '１', '\u2028', '\x85', '\x1c', 'µ', 'ﬁ', '\ufeff', '\xa0', '*']
 
 
 def join(symbols):
